@@ -1,5 +1,5 @@
 import Chrono.Drv.Util
-import Chrono.Model.Timestamp
+import Chrono.Model.TimestampMore
 namespace Chrono.Drv.Timestamp
 open Chrono Chrono.M Chrono.Drv
 
@@ -23,6 +23,17 @@ def showZGet (z : Zoned) : String :=
   joinSp [showRI (Ts.ztimestamp z), showRI (Ts.ztimestamp_millis z), showRI (Ts.ztimestamp_micros z),
     showROI (Ts.ztimestamp_nanos_opt z)]
 
+/-- the sub-second accessors and the deprecated `timestamp_nanos()` of a zone-aware value -/
+def showZSub (z : Zoned) : String :=
+  joinSp [toString (Ts.ztimestamp_subsec_millis z), toString (Ts.ztimestamp_subsec_micros z),
+    toString (Ts.ztimestamp_subsec_nanos z), showRI (Ts.ztimestamp_nanos_expect z)]
+/-- the deprecated `NaiveDateTime::timestamp*` accessors -/
+def showNGet (dt : NaiveDT) : String :=
+  joinSp [showRI (Ts.naive_timestamp dt), showRI (Ts.naive_timestamp_millis dt), showRI (Ts.naive_timestamp_micros dt),
+    showROI (Ts.naive_timestamp_nanos_opt dt), toString (Ts.naive_timestamp_subsec_millis dt),
+    toString (Ts.naive_timestamp_subsec_micros dt), toString (Ts.naive_timestamp_subsec_nanos dt),
+    showRI (Ts.naive_timestamp_nanos dt)]
+
 def handle (op : String) (args : List String) : Option String :=
   match op, args with
   | "ts.from", [s, n] => some (match ints? [s, n] with
@@ -41,6 +52,10 @@ def handle (op : String) (args : List String) : Option String :=
       | some [y, s, f] => showGet (mkDT y s f) | _ => bad)
   | "ts.zget", [y, s, f, o] => some (match ints? [y, s, f, o] with
       | some [y, s, f, o] => showZGet ⟨mkDT y s f, o⟩ | _ => bad)
+  | "ts.zsub", [y, s, f, o] => some (match ints? [y, s, f, o] with
+      | some [y, s, f, o] => showZSub ⟨mkDT y s f, o⟩ | _ => bad)
+  | "ts.nget", [y, s, f] => some (match ints? [y, s, f] with
+      | some [y, s, f] => showNGet (mkDT y s f) | _ => bad)
   | "ts.nanos", [y, s, f] => some (match ints? [y, s, f] with
       | some [y, s, f] => showRI (Ts.timestamp_nanos_expect (mkDT y s f)) | _ => bad)
   | "ts.and_utc", [y, s, f] => some (match ints? [y, s, f] with
